@@ -32,8 +32,11 @@ def main(argv):
         return 2
     failed = 0
     results = []
+    shard = os.environ.get("VERIF_SHARD")  # "i/n": run every n-th entry starting at i (parallel self-test)
     try:
-        for m in idx:
+        for pos, m in enumerate(idx):
+            if shard and pos % int(shard.split("/")[1]) != int(shard.split("/")[0]):
+                continue
             if flt and flt not in m["patch"] and flt not in m.get("property", ""):
                 continue
             sh(f"git -C {SCRATCH} checkout -q -- . && git -C {SCRATCH} clean -fdq")
@@ -73,6 +76,8 @@ def main(argv):
         sh(f"git -C /repo worktree remove --force {SCRATCH}")
         sh(f"rm -rf {SCRATCH}-evidence")
     rp = os.path.join(VERIF, "mutants", "last_results.json")
+    if shard:
+        rp = os.path.join(VERIF, "mutants", f".last_results.{shard.replace('/', '_')}.json")
     old = {}
     if os.path.exists(rp):
         old = {(r["patch"], r["property"]): r for r in json.load(open(rp))}
